@@ -247,7 +247,19 @@ SEQ_REACH = {
     "VH_SEQ_V1DoubleSpend": ["first-accepted", "second-accepted"],
     "VH_SEQ_ForkHeightsAndV1Locks": ["v1-accepted", "v2-accepted"],
     "VH_SEQ_V2Conservation": ["end"],
+    "VH_SEQ_V2SiafundClaimRunningPool": ["end"],
+    "VH_SEQ_V1FormContract": ["end"],
+    "VH_SEQ_V1Revision": ["end"],
+    "VH_SEQ_V1SiafundClaim": ["end"],
+    "VH_SEQ_V1Resolution": ["proof-end", "expiry-end"],
+    "VH_SEQ_V1SameTxnDouble": ["end"],
+    "VH_SEQ_V1MultisigDistinctKeys": ["accepted"],
+    "VH_SEQ_V1ProofAndExpirySameBlock": ["end"],
+    "VH_SEQ_MinerPayouts": ["accepted"],
 }
+SEQ_V1 = ["VH_SEQ_V1FormContract", "VH_SEQ_V1Revision", "VH_SEQ_V1SiafundClaim", "VH_SEQ_V1Resolution", "VH_SEQ_V1SameTxnDouble", "VH_SEQ_V1MultisigDistinctKeys",
+          "VH_SEQ_V1ProofAndExpirySameBlock", "VH_SEQ_MinerPayouts"]
+SEQ_H1 = ["harness/cons/v1seq.go", "harness/common/cons_world.go", "harness/common/cons_support.go"]
 SEQ_CUTS = ["TransactionWeight/V2TransactionWeight: an arbitrary value (uninterpreted)", "FileContractTax / V2FileContractTax: uninterpreted tax(value) <= value (the same function in validation and application)",
             "StorageProofLeafIndex: arbitrary index below the leaf count", "V1Currency inside hash pre-images: fixed-width injective code (real variable-length code checked in C11)",
             "Currency Add/Sub/Cmp lifted to their 128-bit meaning (limb code checked in C15); sum/overflow queries decided in linear integer arithmetic",
@@ -259,50 +271,54 @@ def seq_check(names, extra=None, flagsq=None):
     runs = []
     for nm in names:
         p = dict(SEQ_P)
-        if nm == "VH_SEQ_V1DoubleSpend":
+        if nm == "VH_SEQ_V1DoubleSpend" or nm in SEQ_V1:
             p["nkeys"] = 0
-        runs.append({"pkg": "consensus", "harness": SEQ_H, "run": "^%s$" % nm, "params": {"quick": p, "thorough": p},
+        runs.append({"pkg": "consensus", "harness": SEQ_H1 if nm in SEQ_V1 else SEQ_H, "run": "^%s$" % nm, "params": {"quick": p, "thorough": p},
                      "flags": {"quick": ["-timeout", "1000", "-maxpaths", "200000"], "thorough": ["-timeout", "1000", "-maxpaths", "400000"]},
                      "must_reach": {nm: SEQ_REACH[nm]}})
     return runs
 
 
 PROPS["C02"] = {
-    "runs": seq_check(["VH_SEQ_V2DoubleSpend", "VH_SEQ_V1DoubleSpend", "VH_SEQ_V2SameTxnDoubleUse", "VH_SEQ_V2ResolveOnce"]),
+    "runs": seq_check(["VH_SEQ_V2DoubleSpend", "VH_SEQ_V1DoubleSpend", "VH_SEQ_V2SameTxnDoubleUse", "VH_SEQ_V2ResolveOnce", "VH_SEQ_V1SameTxnDouble", "VH_SEQ_V1ProofAndExpirySameBlock"]),
     "tv_runs": {"quick": 0, "thorough": 0},
-    "bounds": {"quick": "one step from an arbitrary state: two or three transactions of one block touching one element (v2: spend/spend, revise/resolve/any second use incl. all 3x3 resolution kinds; one transaction using a contract twice; v1: form-contract then spend with a symbolic parent ID), fully symbolic contents", "thorough": "same"},
+    "bounds": {"quick": "one step from an arbitrary state: two or three transactions of one block touching one element (v2: spend/spend, revise/resolve/any second use incl. all 3x3 resolution kinds; one transaction using a contract twice; v1: form-contract then spend with a symbolic parent ID; one v1 transaction naming one parent twice under zero-signature unlock conditions; a v1 contract proven in a block and listed as expiring in the same block is resolved once), fully symbolic contents", "thorough": "same"},
     "outside": ["second use in a later block is the accumulator's business: C04 (spent leaves are rejected as unspent) and C05 (the leaf is updated to spent)", "v1/v2 mixed pairs other than those listed; more than three transactions"],
     "stubs": SEQ_CUTS, "assumptions": SEQ_ASSUME,
 }
 PROPS["C03"] = {
-    "runs": seq_check(["VH_SEQ_V2InputAuth", "VH_SEQ_V2RenewalAuth", "VH_SEQ_V2ReviseRevise"]),
+    "runs": seq_check(["VH_SEQ_V2InputAuth", "VH_SEQ_V2RenewalAuth", "VH_SEQ_V2ReviseRevise", "VH_SEQ_V1MultisigDistinctKeys"]),
     "tv_runs": {"quick": 0, "thorough": 0},
-    "bounds": {"quick": "accepted => (policy address == parent address, signature valid for THIS transaction's signature hash under the revealed key; contract / revision / renewal signed by the keys of the contract as it currently stands incl. after an earlier in-block revision; attestation signed by its key; Foundation address change only with an input of the management address); public-key policies; content binding of the signature hashes themselves is C12", "thorough": "same"},
-    "outside": ["v1 covered-field signatures at validator level (their hashes are covered in C12)", "threshold / hash / unlock-condition policies at validator level (policy semantics: C14)"],
+    "bounds": {"quick": "accepted => (policy address == parent address, signature valid for THIS transaction's signature hash under the revealed key; contract / revision / renewal signed by the keys of the contract as it currently stands incl. after an earlier in-block revision; attestation signed by its key; Foundation address change only with an input of the management address); public-key policies; v1: a 2-of-2 unlock condition with two whole-transaction signatures is accepted only if they use distinct key indices; content binding of the signature hashes themselves is C12", "thorough": "same"},
+    "outside": ["v1 partial covered-field signatures at validator level (their hashes are covered in C12)", "threshold / hash / unlock-condition policies at validator level (policy semantics: C14)"],
     "stubs": SEQ_CUTS + ["ideal signatures: sig valid <=> sig == SIG(pk, msg)"], "assumptions": SEQ_ASSUME,
 }
 PROPS["C07"] = {
-    "runs": seq_check(["VH_SEQ_V2ReviseRevise", "VH_SEQ_V2ResolutionOutputs", "VH_SEQ_V2ResolveOnce"]) + [
+    "runs": seq_check(["VH_SEQ_V2ReviseRevise", "VH_SEQ_V2ResolutionOutputs", "VH_SEQ_V2ResolveOnce", "VH_SEQ_V1FormContract", "VH_SEQ_V1Revision", "VH_SEQ_V1Resolution"]) + [
         {"pkg": "consensus", "harness": ["harness/cons/storageproof.go"], "run": "^VH_C07_V2StorageProof$", "params": {"quick": {"maxleaves": 5}, "thorough": {"maxleaves": 9}},
          "flags": {"quick": ["-timeout", "5000", "-maxpaths", "200000"], "thorough": ["-timeout", "20000", "-maxpaths", "2000000"]},
-         "must_reach": {"VH_C07_V2StorageProof": ["accepted", "end"]}}],
+         "must_reach": {"VH_C07_V2StorageProof": ["accepted", "end"]}},
+        {"pkg": "consensus", "harness": ["harness/cons/storageproof.go", "harness/common/cons_world.go", "harness/common/cons_support.go"], "run": "^VH_C07_V1StorageProof$",
+         "params": {"quick": {"maxleaves": 5, "spidx_uf": 1}, "thorough": {"maxleaves": 9, "spidx_uf": 1, "lastall": 1}},
+         "flags": {"quick": ["-timeout", "5000", "-maxpaths", "200000"], "thorough": ["-timeout", "20000", "-maxpaths", "4000000"]},
+         "must_reach": {"VH_C07_V1StorageProof": ["accepted", "end"]}}],
     "tv_runs": {"quick": 0, "thorough": 0},
-    "bounds": {"quick": "v2 contracts: revision rules against an independent specification, relative to the parent and relative to an earlier in-block revision; resolution creates exactly the outputs of its kind (renewal: final outputs, value split exactly; storage proof: valid outputs; expiration: renter + missed host value) with maturity = MaturityHeight(); at most one resolution per block; v2 storage proof root: honest sibling path of every leaf of a 1..5-leaf file accepted, and for a symbolic proof (correct length and +-1) and symbolic presented leaf acceptance implies the presented leaf is the file's leaf at that index", "thorough": "files up to 9 leaves"},
-    "outside": ["v1 contracts (revision/proof/expiry) at validator level", "v2 storage proofs only up to 5 (thorough 9) leaves with every partial last-leaf length; v1 storage proofs (three eras, rhp/v2 ConvertProofOrdering) and the chain-derived challenge index (StorageProofLeafIndex is an arbitrary in-range index) are not covered"],
+    "bounds": {"quick": "v2 contracts: revision rules against an independent specification, relative to the parent and relative to an earlier in-block revision; resolution creates exactly the outputs of its kind (renewal: final outputs, value split exactly; storage proof: valid outputs; expiration: renter + missed host value) with maturity = MaturityHeight(); at most one resolution per block; v2 storage proof root: honest sibling path of every leaf of a 1..5-leaf file accepted, and for a symbolic proof (correct length and +-1) and symbolic presented leaf acceptance implies the presented leaf is the file's leaf at that index; the same two obligations for v1 proofs in each of the three leaf eras (the bytes that count in the era must be the file's); v1 contracts (2 valid + 2 missed outputs, zero-signature unlock conditions): formation (window, payout == valid sum + tax, valid sum == missed sum), revision (window not open, revision number, unlock hash, timelock, payout sums unchanged, recorded revision == accepted revision), storage proof / expiry create exactly the valid / missed outputs with the right maturity and mark the contract resolved", "thorough": "files up to 9 leaves"},
+    "outside": ["v1 contracts with other output counts", "v1 storage proofs: files of 1..5 (thorough 9) leaves, last-leaf lengths 1, 31, 63, 64 (thorough: all 64), all three leaf eras, through the real validateFileContracts; empty files (no leaf to prove) are not covered", "v2 storage proofs only up to 5 (thorough 9) leaves with every partial last-leaf length; the rhp/v2 prover (BuildProof, ConvertProofOrdering) is not run: 'honest proof' is the sibling path of an independently written plain Merkle tree; the chain-derived challenge index is an uninterpreted function of (filesize, window ID, contract ID) with value below the leaf count"],
     "stubs": SEQ_CUTS, "assumptions": SEQ_ASSUME,
 }
 PROPS["C08"] = {
-    "runs": seq_check(["VH_SEQ_V2PolicyLocks", "VH_SEQ_ForkHeightsAndV1Locks", "VH_SEQ_V2ResolutionOutputs", "VH_SEQ_V2ReviseRevise"]),
+    "runs": seq_check(["VH_SEQ_V2PolicyLocks", "VH_SEQ_ForkHeightsAndV1Locks", "VH_SEQ_V2ResolutionOutputs", "VH_SEQ_V2ReviseRevise", "VH_SEQ_V1FormContract", "VH_SEQ_V1Revision", "VH_SEQ_V1SiafundClaim"]),
     "tv_runs": {"quick": 0, "thorough": 0},
     "bounds": {"quick": "symbolic heights, fork heights and maturity delay: accepted => bound respected with the exact comparison and operand (v2 policy locks use the tip height, maturity/timelocks the child height; storage proof >= proof height; expiration > expiration height; revision <= proof height; v1 < require height; v2 >= allow height), plus reachability of acceptance exactly at the bound for policy locks", "thorough": "same"},
-    "outside": ["time locks (after(t)) at validator level (policy semantics incl. after(): C14)", "v1 contract window rules"],
+    "outside": ["time locks (after(t)) at validator level (policy semantics incl. after(): C14)", "v1 per-signature timelocks (harnesses use zero-signature unlock conditions); v1 unlock-condition timelocks and contract windows ARE covered"],
     "stubs": SEQ_CUTS, "assumptions": SEQ_ASSUME,
 }
 PROPS["C01"] = {
-    "runs": seq_check(["VH_SEQ_V2Conservation", "VH_SEQ_V2ResolutionOutputs", "VH_SEQ_V2ReviseRevise"]),
+    "runs": seq_check(["VH_SEQ_V2Conservation", "VH_SEQ_V2ResolutionOutputs", "VH_SEQ_V2ReviseRevise", "VH_SEQ_V2SiafundClaimRunningPool", "VH_SEQ_V1FormContract", "VH_SEQ_V1SiafundClaim", "VH_SEQ_V1Resolution", "VH_SEQ_MinerPayouts"]),
     "tv_runs": {"quick": 0, "thorough": 0},
-    "bounds": {"quick": "one v2 transaction from an arbitrary state: (1 input, 2 outputs, optional new contract, fee): value of created elements + locked contract value + pool increase + fee == value spent, computed on the diffs the real ApplyV2Transaction produced; renewal splits the old contract exactly; revisions keep the contract total and keep the missed host value <= host value (so an expiry never pays more than is locked)", "thorough": "same"},
-    "outside": ["v1 transactions, siafund claims, block-level reward/subsidy equation, chains (only the one-step equations above are decided)"],
+    "bounds": {"quick": "one v2 transaction from an arbitrary state: (1 input, 2 outputs, optional new contract, fee): value of created elements + locked contract value + pool increase + fee == value spent, computed on the diffs the real ApplyV2Transaction produced; renewal splits the old contract exactly; revisions keep the contract total and keep the missed host value <= host value (so an expiry never pays more than is locked); v2 siafund claim after an in-block contract formation pays (running pool - claim start)/10000 x value and new siafund outputs start at the running pool; v1: contract formation conserves (inputs == outputs + payout + fee, pool += tax), siafund claim pays exactly the share, resolution pays exactly the valid / missed outputs; miner payouts accepted => payout == block reward + v1 fee + v2 fee (1 payout, 1 fee each)", "thorough": "same"},
+    "outside": ["foundation subsidy equation, chains (only the one-step equations above are decided); sums over more elements than the harness shapes"],
     "stubs": SEQ_CUTS, "assumptions": SEQ_ASSUME,
 }
 for pid, txt in [("C01", "conservation equations on the diffs produced by the real validation+application code"), ("C02", "no second use of an element inside one block"),
